@@ -289,6 +289,7 @@ fn run_pair(c: &PairCase) -> Result<(), (String, String)> {
         let n = match res {
             Ok(n) => n,
             Err(Error::State(StateProblem::MissingKeyMaterial)) => return Err(("a successfully built pair failed later for missing key material".into(), format!("{detail}: write of message {k}"))),
+            Err(Error::State(StateProblem::MissingPsk)) => return Err(("a PSK that was supplied is reported missing later".into(), format!("{detail}: write of message {k}"))),
             Err(_) => return Ok(()), // another failure of an honest handshake is C02's business, not this property's
         };
         // reader
@@ -309,6 +310,7 @@ fn run_pair(c: &PairCase) -> Result<(), (String, String)> {
         match res {
             Ok(_) => {},
             Err(Error::State(StateProblem::MissingKeyMaterial)) => return Err(("a successfully built pair failed later for missing key material".into(), format!("{detail}: read of message {k}"))),
+            Err(Error::State(StateProblem::MissingPsk)) => return Err(("a PSK that was supplied is reported missing later".into(), format!("{detail}: read of message {k}"))),
             Err(_) => {
                 // with an all-zero substitute psk failing is the right answer; any other failure of an honest
                 // handshake is C02's (or, after a late set_psk, C07's) business
